@@ -1324,7 +1324,8 @@ def check_access(ctx, cr, s):
         done_names.add(fname)
         want_get = "r" in by_name[fname]
         want_set = "w" in by_name[fname]
-        if not want_get and fname in ("raw_value", "new_with_raw_value", "builder", "new", "default", "build"):
+        other_api = {pre + n for n, acc in by_name.items() if "w" in acc for pre in ("with_", "set_")}
+        if not want_get and (fname in ("raw_value", "new_with_raw_value", "builder", "new", "default", "build") or fname in other_api):
             # a field without a getter may carry the name of a generated method: the method of that name is then
             # not its getter (what it can read is judged by the surface rule below, whatever it is called)
             for pre in ("with_", "set_"):
